@@ -14,6 +14,13 @@ new PES packet."
 `adaptation_field_control`, `readBits p 9 1` the `payload_unit_start_indicator` (ISO/IEC 13818-1
 2.4.3.2; tied to the model's accessors by C12).  "packet" = any `p : Bytes` with `p.length = 188`.
 
+READING of "carries no payload" (`expected_uses_afc_bit`).  The successor rule looks at the payload
+BIT of `adaptation_field_control` (`Packet.hasPayload` = bit `0x10` of header byte 3), as ISO/IEC
+13818-1 2.4.3.3 does, NOT at whether C12's `Packet.payload` returned a payload.  The two differ on
+the illegal packet `adaptation_field_control = 11`, `adaptation_field_length = 183`: C12 returns no
+payload (and no adaptation field), yet the counter is expected to ADVANCE (+1) — evaluated example
+after `expected_uses_afc_bit`.
+
 Layout.
 * one packet / runs of ONE filter instance: `ccerr_iff`, `run_ccerr_iff` (from `{}`),
   `run_ccerr_iff_from` / `run_ccerr_total` (from ANY state, against the independent counter rule
@@ -41,6 +48,49 @@ example : Packet.follows 0 15 = true ∧ Packet.follows 1 15 = false ∧ Packet.
 
 /-- the expected counter of a packet, given the previous packet's counter `c` -/
 abbrev expected (p : Bytes) (c : Nat) : Nat := if readBits p 27 1 = 1 then (c + 1) % 16 else c
+
+/-- **READING: which bit `expected` looks at.**  "Carries payload" in C09's successor rule is the
+low bit of `adaptation_field_control` — bit 27 of the packet = bit `0x10` of header byte 3 = the
+model's `Packet.hasPayload (byte 3)`, the very test `PesPacketFilter::is_continuous` makes
+(`pes.rs:88-103`: `adaptation_control().has_payload()`) — and nothing else: not the adaptation-field
+bit, not `adaptation_field_length`, not whether `Packet::payload()` (C12 `Packet.payload`) returns
+`Some`.  For legal packets the two notions coincide (C12: a payload is returned whenever the bit is
+set and the lengths are legal); they differ exactly on illegal control/length combinations — see the
+evaluated example below. -/
+theorem expected_uses_afc_bit (p : Bytes) (c : Nat) :
+    expected p c = (if Packet.hasPayload (byteD p 3) = true then (c + 1) % 16 else c)
+      ∧ (Packet.hasPayload (byteD p 3) = true ↔ readBits p 27 1 = 1)
+      ∧ (Packet.hasPayload (byteD p 3) = true ↔ byteD p 3 &&& 0x10 ≠ 0) := by
+  have h : Packet.hasPayload (byteD p 3) = (readBits p 27 1 == 1) := hpOf_eq p
+  refine ⟨?_, ?_, ?_⟩
+  · unfold expected
+    rw [h]
+    by_cases hb : readBits p 27 1 = 1 <;> simp [hb]
+  · rw [h]; exact beq_iff_eq
+  · simp [Packet.hasPayload]
+
+/-- the illegal packet `adaptation_field_control = 11`, `adaptation_field_length = 183`
+(`47 00 00 31 b7 ff …`: byte 3 = `0x30 | continuity_counter`, here counter 1): 188 bytes, payload
+bit SET, and C12's accessors return neither a payload nor an adaptation field -/
+example : (mkPkt 0x00 0x31 [183]).length = 188 ∧ readBits (mkPkt 0x00 0x31 [183]) 26 2 = 3
+    ∧ byteD (mkPkt 0x00 0x31 [183]) 4 = 183
+    ∧ Packet.hasPayload (byteD (mkPkt 0x00 0x31 [183]) 3) = true
+    ∧ Packet.payload (mkPkt 0x00 0x31 [183]) = .ok none
+    ∧ Packet.af (mkPkt 0x00 0x31 [183]) = .ok none
+    ∧ expected (mkPkt 0x00 0x31 [183]) 0 = 1 := by decide +kernel
+
+/-- … and C09 expects its counter to ADVANCE: after a packet with counter 0, this packet with
+counter 1 is NOT an error (nothing is delivered for it: there is no payload), with counter 0
+(unchanged, as for a packet "without payload" in C12's sense) it IS an error.  Contrast the legal
+adaptation-field-only packet (`adaptation_field_control = 10`, length 183): unchanged counter, no
+error. -/
+example :
+    run {} [mkPkt 0x40 0x10 pesStart, mkPkt 0x00 0x31 [183]]
+      = .ok (⟨some 1, .started⟩, [[.start, .beginPkt 4 184], []])
+    ∧ run {} [mkPkt 0x40 0x10 pesStart, mkPkt 0x00 0x30 [183]]
+      = .ok (⟨some 0, .ignoreRest⟩, [[.start, .beginPkt 4 184], [.ccErr]])
+    ∧ run {} [mkPkt 0x40 0x10 pesStart, mkPkt 0x00 0x20 [183]]
+      = .ok (⟨some 0, .started⟩, [[.start, .beginPkt 4 184], []]) := by decide +kernel
 
 /-! ### one packet -/
 
@@ -919,6 +969,35 @@ example : ∃ t' c' new2 new3,
       rw [h, show ({} : F).cc = none from rfl, brkPks_breaks.1]; decide
     · obtain ⟨_, _, _, _, _, _, _, _, h⟩ := b2
       rw [h, show ({} : F).cc = none from rfl, brkPks_breaks.2]; decide
+
+/-- NON-VACUITY of `app_ccerr_count_trace`: the theorem APPLIED to the same run (hypothesis `hK : Keeps`
+discharged from the input by `C02Trace.keeps_of_es_and_repeated_tables`): on the shared trace the
+count of `esCcErr 2` grows by exactly the number of breaks of the counter rule over consumer 2's own
+packets — `[false, true, false]`, i.e. ONE — and that of `esCcErr 3` by none -/
+example : ∃ t' c', pushSpec App.sem (exTab0, exCtx0) brkPks = .ok (t', c')
+    ∧ c'.trace.count (.esCcErr 2) = exCtx0.trace.count (.esCcErr 2) + 1
+    ∧ c'.trace.count (.esCcErr 3) = exCtx0.trace.count (.esCcErr 3) + 0 := by
+  have hok : ((pushSpec App.sem (exTab0, exCtx0) brkPks).isOk
+      && brkPks.all (fun pk => pk.bytes.length == 188)) = true := by decide +kernel
+  simp only [Bool.and_eq_true, List.all_eq_true, beq_iff_eq] at hok
+  obtain ⟨hok, hlen⟩ := hok
+  cases hrun : pushSpec App.sem (exTab0, exCtx0) brkPks with
+  | panic s => rw [hrun] at hok; cases hok
+  | ok r =>
+    obtain ⟨t', c'⟩ := r
+    have g21 : exTab0.get 0x21 = some (.pes 2 {}) := by decide +kernel
+    have g22 : exTab0.get 0x22 = some (.pes 3 {}) := by decide +kernel
+    have a := app_ccerr_count_trace 0x21 2 brkPks exTab0 exCtx0 {} t' c' C02Trace.exState_inv.1 g21
+      (fun pk hm _ _ => hlen pk hm)
+      (C02Trace.keeps_of_es_and_repeated_tables (fun _ => 0) 0x21 2 brkPks exTab0 exCtx0 {} g21
+        (fun pk hm _ => brkPks_input pk hm)) hrun
+    have b := app_ccerr_count_trace 0x22 3 brkPks exTab0 exCtx0 {} t' c' C02Trace.exState_inv.1 g22
+      (fun pk hm _ _ => hlen pk hm)
+      (C02Trace.keeps_of_es_and_repeated_tables (fun _ => 0) 0x22 3 brkPks exTab0 exCtx0 {} g22
+        (fun pk hm _ => brkPks_input pk hm)) hrun
+    rw [show ({} : F).cc = none from rfl, brkPks_breaks.1] at a
+    rw [show ({} : F).cc = none from rfl, brkPks_breaks.2] at b
+    exact ⟨t', c', rfl, a, b⟩
 
 /-- … the same run, evaluated: consumer 2 (PID 0x21) gets `continuity_error` for its packet `A1'`, whose
 data is withheld, and a fresh `begin_packet` (no `end_packet`) for `A2'`; consumer 3 (PID 0x22) is
